@@ -125,9 +125,26 @@ func domFlt(r *gen.Rng, n int, thorough bool, o *Out) {
 		o.Emit(opI, func() string {
 			set := fieldpath.NewSet(paths...)
 			before := vx.Trie(set)
+			// what each matcher selects on its own, before it takes part in a merge
+			alone := make([]string, len(ms))
+			for i, m := range ms {
+				alone[i] = vx.Trie(fieldpath.NewIncludeMatcherFilter(m).Filter(set))
+			}
 			out := fieldpath.NewIncludeMatcherFilter(ms...).Filter(set)
 			if vx.Trie(set) != before {
 				o.Fail("C08", "set/filter-operand-unchanged", "", "set/filter-operand-unchanged "+opI, opI)
+			}
+			// merging matchers (NewIncludeMatcherFilter merges its arguments, and SetMatcher.Merge directly)
+			// leaves every operand as it was: each still selects what it selected alone
+			if len(ms) >= 2 {
+				_ = ms[0].Merge(ms[1])
+				_ = ms[len(ms)-1].Merge(ms[0])
+			}
+			for i, m := range ms {
+				if got := vx.Trie(fieldpath.NewIncludeMatcherFilter(m).Filter(set)); got != alone[i] {
+					o.Fail("C08", "matcher/merge-operand-unchanged", fmt.Sprintf("matcher %d selected %s before the merge, %s after", i, alone[i], got),
+						"matcher/merge-operand-unchanged "+opI, opI)
+				}
 			}
 			kept := 0
 			set.Iterate(func(p fieldpath.Path) {
